@@ -5,6 +5,7 @@ package dnsserver
 import (
 	"context"
 	"net"
+	"net/http"
 
 	"github.com/AdguardTeam/AdGuardDNS/internal/dnsserver/netext"
 )
@@ -24,3 +25,11 @@ func (s *ServerDNS) VerifC07ServeUDPPacket(ctx context.Context, buf []byte, conn
 
 // VerifC07Release stops the worker pool of a server that was never started.
 func (s *ServerDNS) VerifC07Release() { s.workerPool.Release() }
+
+// VerifC07ServeHTTP runs the real DoH handler (ServeHTTP -> serveDoH ->
+// serveDNS -> handler -> writeResponse -> dispose) for one HTTP request, in
+// the calling goroutine, for a server that was never started.
+func (s *ServerHTTPS) VerifC07ServeHTTP(w http.ResponseWriter, r *http.Request) {
+	h := &httpHandler{srv: s, localAddr: &net.TCPAddr{IP: net.IPv4(192, 0, 2, 53), Port: 443}}
+	h.ServeHTTP(w, r)
+}
